@@ -92,7 +92,7 @@ type s1 struct {
 	recursed      map[s1key]bool
 	dependsOnProv map[s1key]bool
 	ssums         map[s1key]*sliceSum
-	sinprog map[s1key]bool
+	sinprog       map[s1key]bool
 	// benign header reads: UE reads of a slice header used only for cap()/reslice-store-back/nil test
 	constOnly bool
 }
